@@ -1478,7 +1478,7 @@ func (c *Ctx) InferredVariableTypeIsDeclared(ob *core.Obligation) {
 		}
 		entries := clauseEntries(fn, ve)
 		e := entries["Variable"]
-		if e == nil || len(entries) < 3 {
+		if e == nil || len(entries) < 2 {
 			continue
 		}
 		n++
@@ -1490,15 +1490,7 @@ func (c *Ctx) InferredVariableTypeIsDeclared(ob *core.Obligation) {
 				continue
 			}
 			v := resolveLocal(ret.Results[0])
-			if _, ok := core.ConstString(v); ok {
-				continue
-			}
-			if ld, ok := v.(*ssa.UnOp); ok && ld.Op == token.MUL {
-				if fa, ok := ld.X.(*ssa.FieldAddr); ok && ownerName(fa) == "TypeDecl" {
-					continue
-				}
-			}
-			if fv, ok := v.(*ssa.Field); ok && ownerOfField(fv.X.Type()) == "TypeDecl" {
+			if declaredTypeOrConst(v, 0) {
 				continue
 			}
 			bad = true
@@ -1542,6 +1534,42 @@ func (c *Ctx) InferredVariableTypeIsDeclared(ob *core.Obligation) {
 	if n == 0 {
 		ob.Unknown("inferred-type:none", "-", "no type-inference function over expressions found in the checker")
 	}
+}
+
+// declaredTypeOrConst: v is a string constant, the Name of a type declaration, or the result
+// of a module function every return of which is one of those.
+func declaredTypeOrConst(v ssa.Value, depth int) bool {
+	v = resolveLocal(v)
+	if _, ok := core.ConstString(v); ok {
+		return true
+	}
+	switch x := v.(type) {
+	case *ssa.UnOp:
+		if fa, ok := x.X.(*ssa.FieldAddr); ok && x.Op == token.MUL && ownerName(fa) == "TypeDecl" {
+			return true
+		}
+	case *ssa.Field:
+		return ownerOfField(x.X.Type()) == "TypeDecl"
+	case *ssa.Phi:
+		for _, e := range x.Edges {
+			if !declaredTypeOrConst(e, depth) {
+				return false
+			}
+		}
+		return len(x.Edges) > 0
+	case *ssa.Call:
+		sc := x.Call.StaticCallee()
+		if sc == nil || len(sc.Blocks) == 0 || depth > 2 {
+			return false
+		}
+		for _, ret := range core.Returns(sc) {
+			if len(ret.Results) != 1 || !declaredTypeOrConst(ret.Results[0], depth+1) {
+				return false
+			}
+		}
+		return true
+	}
+	return false
 }
 
 // ---------- a notification always reaches the store ----------
